@@ -46,7 +46,7 @@ def run(ctx):
 
     of = ctx.path("obs.ndjson")
     rc, out = vf.gotest(ctx, "./internal/core/", "^TestVerif_C40_Stress$", out=of, race=True, timeout=1500,
-                        params={"ROUNDS": ctx.pick(4, 40), "MS": ctx.pick(400, 1500)})
+                        params={"ROUNDS": ctx.pick(8, 60), "MS": ctx.pick(500, 1500)})
     races = re.findall(r"WARNING: DATA RACE.*?(?:==================|\Z)", out, re.S)
     if rc != 0 and not races:
         raise vf.Infra("stress harness failed (rc=%d)\n%s" % (rc, out[-5000:]))
